@@ -26,6 +26,7 @@ type Env struct {
 	pkg    *types.Package
 	bound  map[string]Val
 	res    []Val
+	params map[string]Val // entry values of the parameters: old(x) for a bare name x
 }
 
 func rewriteImplies(s string) string {
@@ -238,6 +239,13 @@ func (ev *Env) evo(e ast.Expr, old bool) Val {
 			return Val{S: "Str", T: U.lit(s)}
 		}
 	case *ast.Ident:
+		if old && ev.params != nil {
+			if v, ok := ev.params[e.Name]; ok {
+				if _, isBound := ev.bound[e.Name]; !isBound {
+					return v
+				}
+			}
+		}
 		return ev.ident(e.Name, old)
 	case *ast.UnaryExpr:
 		v := ev.evo(e.X, old)
@@ -585,6 +593,31 @@ func (ev *Env) call(e *ast.CallExpr, old bool) Val {
 			q = "exists"
 		}
 		return Val{S: "Bool", T: fmt.Sprintf("(%s ((%s %s)) %s)", q, bn, sn, body.T)}
+	case "olit":
+		// olit(o, "text"): o with the bytes of the literal appended
+		o := arg(0)
+		lit, ok := e.Args[1].(*ast.BasicLit)
+		if !ok || lit.Kind != token.STRING {
+			limitf("olit(o, \"text\")")
+		}
+		txt, _ := strconv.Unquote(lit.Value)
+		t := o.T
+		for i := 0; i < len(txt); i++ {
+			t = fmt.Sprintf("(OByte %s %d)", t, txt[i])
+		}
+		return Val{S: "Out", T: t}
+	case "mapdom", "mapval":
+		mv := arg(0)
+		mt, ok := mv.GT.Underlying().(*types.Map)
+		if mv.GT == nil || !ok {
+			limitf("%s of a non-map", name)
+		}
+		dn, vn := mapHeapNames(U, mt)
+		ks, vs := U.sortOf(mt.Key()), U.sortOf(mt.Elem())
+		if name == "mapdom" {
+			return Val{S: "(Array " + ks + " Bool)", T: fmt.Sprintf("(select %s %s)", ev.heap(dn, "(Array "+ks+" Bool)", old), mv.T)}
+		}
+		return Val{S: "(Array " + ks + " " + vs + ")", T: fmt.Sprintf("(select %s %s)", ev.heap(vn, "(Array "+ks+" "+vs+")", old), mv.T)}
 	case "isnil":
 		v := arg(0)
 		n := ev.nilFor(v)
